@@ -1,5 +1,6 @@
 //! C09 — flows follow the documented state graph; the readiness query agrees with advancing.
 use super::c01::{check_against_truth, gen_chain};
+use crate::model::{random_response, Exchange, Handshake};
 use crate::core::{guarded, panic_sig, Property, Rec, Tier, Workload};
 use crate::drive::*;
 use crate::rng::Rng;
@@ -140,6 +141,78 @@ fn probe(d: &mut Driver, rec: &mut Rec) -> bool {
     }
 }
 
+/// The flow a redirect produced is a flow like any other: it is driven through a complete second
+/// exchange (its own random response, schedule, optional escape hatch, the Expect header it
+/// inherited) and must follow the reference graph for the request it effectively is.
+fn second_exchange_on(mut nf: F<ureq_proto::client::flow::state::Prepare>, policy: RedirectAuthHeaders, ex: &Exchange, rng: &mut Rng, rec: &mut Rec) -> bool {
+    use crate::wire::{redirect_method, split_uri};
+    let method2 = match redirect_method(ex.cfg.method, ex.head.status) {
+        Some(m) => m,
+        None => return true,
+    };
+    let uri2 = nf.uri().to_string();
+    let keep_auth = super::heads::may_keep_auth(policy, &split_uri(&ex.cfg.uri), &split_uri(&uri2));
+    let mut cfg2 = ReqCfg::new(method2, &uri2);
+    cfg2.ver = ex.cfg.ver;
+    // what the new request inherits: the original headers (not the ones the caller added to the
+    // previous flow) minus cookie, content-length and, unless the policy keeps it, authorization
+    cfg2.orig = ex
+        .cfg
+        .orig
+        .iter()
+        .filter(|(n, _)| !(n.eq_ignore_ascii_case("cookie") || n.eq_ignore_ascii_case("content-length") || (n.eq_ignore_ascii_case("authorization") && !keep_auth)))
+        .cloned()
+        .collect();
+    let inherited_te = cfg2.has("transfer-encoding");
+    let mut body2 = vec![];
+    if !needs_body(method2) && (inherited_te || rng.chance(1, 3)) {
+        // an inherited Transfer-Encoding on a body-less method is refused by the request analysis (not
+        // pinned by any property), so those flows always take the escape hatch
+        cfg2.despite = true;
+        body2 = crate::wire::payload(rng.usize_in(0, 40), 7);
+    }
+    if rng.chance(1, 3) {
+        cfg2.added.push(("x-hop".into(), b"2".to_vec()));
+    }
+    let expect = cfg2.expect_100() && cfg2.sends_body();
+    let handshake = if !expect {
+        Handshake::None
+    } else {
+        match rng.below(4) {
+            0 => Handshake::Got100,
+            1 => Handshake::GiveUp(rng.usize_in(0, 3)),
+            2 => Handshake::Late100(rng.usize_in(0, 3)),
+            _ => Handshake::Refused,
+        }
+    };
+    let (head, body, close_data) = random_response(rng, 300, true, "hop2");
+    let ex2 = Exchange { cfg: cfg2, req_body: body2, handshake, interim_reason: "Continue", head, body, close_data, extra_interim: 0, unsolicited_100: 0 };
+    let (stream, truth2) = match ex2.render() {
+        Some(v) => v,
+        None => return true,
+    };
+    if let Err(e) = apply_prepare(&mut nf, &ex2.cfg) {
+        rec.fail("C09/redirected-flow-prepare", format!("{:?}", e));
+        return false;
+    }
+    rec.ev(|| format!("second exchange on the redirected flow: {} | body {}B | handshake {:?} | response {} {:?}", ex2.cfg.describe(), ex2.req_body.len(), ex2.handshake, ex2.head.status, truth2.framing));
+    let sched = Sched::random(rng, true);
+    let mut d = Driver::new(nf, &ex2.cfg, &ex2.req_body, &stream, truth2.scen, sched);
+    let end = d.run(rec);
+    if end != Step::Done {
+        rec.fail("C09/redirected-exchange-did-not-complete", format!("{:?}; {}", end, d.summary()));
+        return false;
+    }
+    if !check_against_truth(&d, &ex2, &truth2, None, "C09/redirected", rec) {
+        return false;
+    }
+    for w in d.path.windows(2) {
+        rec.cov(&format!("redirected-edge/{}->{}", w[0], w[1]));
+    }
+    rec.cov("edge/Redirect->Prepare");
+    true
+}
+
 fn history_case(rng: &mut Rng, rec: &mut Rec) {
     let body_max = if rng.chance(1, 6) { 12_000 } else { 300 };
     let chain = gen_chain(rng, 1, body_max);
@@ -203,19 +276,34 @@ fn history_case(rng: &mut Rng, rec: &mut Rec) {
                 let has_location = ex.head.fields.iter().any(|f| f.name.eq_ignore_ascii_case("location"));
                 let policy = if rng.chance(1, 2) { RedirectAuthHeaders::Never } else { RedirectAuthHeaders::SameHost };
                 rec.call();
+                // half of the followed redirects are driven as a complete second exchange (below)
+                let second_exchange = rng.chance(1, 2);
+                let mut new_flow_out = None;
                 let res = guarded(move || {
                     let nf = r.as_new_flow(policy);
                     match nf {
+                        Ok(Some(nf)) if second_exchange => Ok::<_, String>((Some(0), true, Some(nf))),
                         Ok(Some(nf)) => {
                             // the new flow must be usable: write its head and go on
                             let mut s = nf.proceed();
                             let head = write_head_big(&mut s).map_err(|e| format!("{:?}", e))?;
                             let ready = s.can_proceed();
                             let _ = s.proceed();
-                            Ok::<_, String>((Some(head.len()), ready))
+                            Ok::<_, String>((Some(head.len()), ready, None))
                         }
-                        Ok(None) => Ok((None, true)),
-                        Err(e) => Err(format!("{:?}", e)),
+                        Ok(None) => {
+                            // a declined redirect leaves the flow where it was: asking again and then
+                            // moving on to Cleanup are permitted calls
+                            let _ = r.as_new_flow(policy);
+                            let _ = r.status();
+                            let _ = r.proceed();
+                            Ok((None, true, None))
+                        }
+                        Err(e) => {
+                            let _ = r.as_new_flow(policy);
+                            let _ = r.proceed();
+                            Err(format!("{:?}", e))
+                        }
                     }
                 });
                 match res {
@@ -230,13 +318,19 @@ fn history_case(rng: &mut Rng, rec: &mut Rec) {
                         }
                         rec.cov(if has_location { "edge/Redirect->(refused: inherited transfer-encoding)" } else { "edge/Redirect->(error: no Location)" });
                     }
-                    Ok(Ok((Some(n), ready))) => {
+                    Ok(Ok((Some(_), _, Some(nf)))) => new_flow_out = Some((nf, policy)),
+                    Ok(Ok((Some(n), ready, None))) => {
                         if n == 0 || !ready {
                             return rec.fail("C09/new-flow-not-usable", format!("flow created by the redirect wrote {} head bytes, ready={}", n, ready));
                         }
                         rec.cov("edge/Redirect->Prepare");
                     }
-                    Ok(Ok((None, _))) => rec.cov("edge/Redirect->(not followed)"),
+                    Ok(Ok((None, _, _))) => rec.cov("edge/Redirect->(not followed)"),
+                }
+                if let Some((nf, policy)) = new_flow_out {
+                    if !second_exchange_on(nf, policy, ex, rng, rec) {
+                        return;
+                    }
                 }
             }
         }
@@ -406,7 +500,7 @@ impl Property for P {
         "C09"
     }
     fn rule(&self) -> String {
-        "random exchanges over the menu of the quantifier (every method, both versions, with/without Expect, with/without despite-method and framing headers; server: interim 100, late 100, refusal with/without fields, every body framing, redirects with/without Location) are driven under a seeded schedule; the states visited must equal the path the reference graph prescribes, the exchange must be usable to completion (C01's ground-truth checks apply), a Redirect is followed and the new flow used. The same deterministic history is then replayed to every step k (all steps for histories <= 40 calls, 24 sampled otherwise) and an advance is attempted there, ready or not: can_proceed() must equal 'proceed() succeeded', nothing may panic, and the freshly entered state's accessors are exercised. In-crate hook: the call holder variant must match the typestate at every Flow::wrap. class = graph edge x config class, probe state x outcome.".into()
+        "random exchanges over the menu of the quantifier (every method, both versions, with/without Expect, with/without despite-method and framing headers; server: interim 100, late 100, refusal with/without fields, every body framing, redirects with/without Location) are driven under a seeded schedule; the states visited must equal the path the reference graph prescribes, the exchange must be usable to completion (C01's ground-truth checks apply), a Redirect is followed and the new flow used. The same deterministic history is then replayed to every step k (all steps for histories <= 40 calls, 24 sampled otherwise) and an advance is attempted there, ready or not: can_proceed() must equal 'proceed() succeeded', nothing may panic, and the freshly entered state's accessors are exercised. Half of the followed redirects are driven as a complete second exchange on the new flow (its own response, schedule, escape hatch, inherited Expect) against the same reference graph; a declined or failed as_new_flow is asked again and then left through proceed(). In-crate hook: the call holder variant must match the typestate at every Flow::wrap. class = graph edge x config class, probe state x outcome.".into()
     }
     fn assumptions(&self) -> Vec<String> {
         vec![
@@ -447,6 +541,7 @@ impl Property for P {
         v.push(("edge-config/SendRequest->SendBody/despite-body".into(), 5));
         v.push(("hook:flow:Await100:WithBody".into(), 10));
         v.push(("server/unsolicited-100".into(), 20));
+        v.push(("edge/Redirect->(not followed)".into(), 5));
         v.push(("expect-spelling/*".into(), 500));
         v.push(("rejected-menu/writes=0/refused".into(), 100));
         v.push(("rejected-menu/writes=1/refused".into(), 100));
